@@ -2,6 +2,7 @@ package main
 
 import (
 	"fmt"
+	"github.com/uhppoted/uhppote-core/types"
 	"github.com/uhppoted/uhppote-core/uhppote"
 	"net"
 	"net/netip"
@@ -132,6 +133,42 @@ func runApiStream(o Opts, prop, oracle string, mix apiMix) error {
 			forceCardNo = nil
 			reply := genReply(r, oc.Resp, id, 0, nil)
 			apiCase(s, Cfg{}, oc, Script{Kind: "datagrams", Datagrams: [][]byte{reply}}, "card-number-sweep/PutCard", nil, true)
+		}
+	}
+	if mix.edges {
+		// PutCard with every list of up to three card formats over {any, Wiegand-26, two undefined values}, for a card number
+		// that is / is not a Wiegand-26 number
+		fv := []types.CardFormat{types.WiegandAny, types.Wiegand26, types.CardFormat(2), types.CardFormat(7)}
+		lists := [][]types.CardFormat{}
+		for a := -1; a < 4; a++ {
+			for b := -1; b < 4; b++ {
+				for c := -1; c < 4; c++ {
+					l := []types.CardFormat{}
+					for _, x := range []int{a, b, c} {
+						if x >= 0 {
+							l = append(l, fv[x])
+						}
+					}
+					if (a < 0 && (b >= 0 || c >= 0)) || (b < 0 && c >= 0) {
+						continue
+					}
+					lists = append(lists, l)
+				}
+			}
+		}
+		for _, l := range lists {
+			for _, no := range []uint32{10058400, 25565536, 8165538, 100000000} {
+				no := no
+				forceCardNo, forceFormats = &no, l
+				if len(l) == 0 {
+					forceFormats = []types.CardFormat{}
+				}
+				id := genID(r)
+				oc := genOp(r, 12, id, false)
+				forceCardNo, forceFormats = nil, nil
+				reply := genReply(r, oc.Resp, id, 0, nil)
+				apiCase(s, Cfg{}, oc, Script{Kind: "datagrams", Datagrams: [][]byte{reply}}, "format-list-sweep/PutCard", nil, true)
+			}
 		}
 	}
 	if mix.configs {
